@@ -3,6 +3,7 @@ CONSTANTS
   SetPrios = {1, 2}
   Alphabet <- AlphaPertNoTick
   K = 1
+  ReAddPinned = FALSE
   CapBase = 0
 INIT Init
 NEXT Next
